@@ -91,6 +91,8 @@ type builtImage struct {
 	D           *simdisk.Disk
 	Start, Size int64
 	Open        func(b backend.Storage) (filesystem.FileSystem, error)
+	// OpenUnsized, where the format's Read accepts it, opens without telling the size of the image (size 0)
+	OpenUnsized func(b backend.Storage) (filesystem.FileSystem, error)
 	// PathOf maps a tree path to the form the filesystem's calls expect
 	PathOf func(p string) string
 	// NameOf maps a tree path to the name under which the image stores it (ISO plain mode mangles names)
@@ -437,6 +439,7 @@ func buildImage(kind string, tree []imgEntry, start int64, opt map[string]int64)
 		}
 		bi.D, bi.Size = d, size
 		bi.Open = func(b backend.Storage) (filesystem.FileSystem, error) { return iso9660.Read(b, size, start, bs) }
+		bi.OpenUnsized = func(b backend.Storage) (filesystem.FileSystem, error) { return iso9660.Read(b, 0, start, bs) }
 		bi.PathOf = func(p string) string { return p }
 		bi.Unit = bs
 		return bi, nil
